@@ -32,6 +32,7 @@ def drv_map(keys0, ops):
     e = Entry("article", "ek", fields)
     results = []
     snaps = []
+    held = []      # (field object handed out by get, its key and value at that time)
     for op, k, tag in ops:
         if op == "set_field":
             e.set_field(Field(k, tag))
@@ -51,6 +52,8 @@ def drv_map(keys0, ops):
                 del d[k]
         elif op == "get":
             r = e.get(k)
+            if r is not None:
+                held.append((r, r.key, r.value))
             results.append((None if r is None else r.value, d.get(k)))
         elif op == "getd":
             r = e.get(k, "dflt")
@@ -69,12 +72,16 @@ def drv_map(keys0, ops):
             results.append((a, b))
         fd = e.fields_dict
         snaps.append(([(f.key, f.value) for f in e.fields], [(kk, fd[kk].value) for kk in fd], e.items(), list(d.items())))
-    return results, snaps, e["ENTRYTYPE"], e["ID"]
+    unchanged = [(f.key, f.value, k0, v0) for f, k0, v0 in held]
+    return results, snaps, e["ENTRYTYPE"], e["ID"], unchanged
 
 
 def check_map(res, E):
-    results, snaps, et, eid = res
+    results, snaps, et, eid, unchanged = res
     conds = [E(et, "article"), E(eid, "ek")]
+    for k1, v1, k0, v0 in unchanged:
+        # like a value obtained from a dict: later assignments do not change what was handed out
+        conds.append(b_and(E(k1, k0), E(v1, v0)))
     for a, b in results:
         if isinstance(a, (bool, SBool)) or isinstance(b, (bool, SBool)):
             conds.append(E(a, b))
